@@ -307,6 +307,26 @@ class Gen:
                 nm = ".L" + nm
                 temp[nm] = True
             lines.append({"l": nm})
+        if self.case["fmt"] == "elf" and into_code and \
+                self.knobs.get("other_sections", True) and \
+                rng.random() < 0.1:
+            # the patch also emits data into another section (an existing
+            # one or a new one) and refers to it
+            nm = f"pt{eid}_o"
+            if rng.random() < 0.5:
+                nm = ".L" + nm
+                temp[nm] = True
+            sec = rng.choice([".data", ".data", f"nsec{eid % 2}"])
+            k = rng.choice([k for k in ("lea_sym", "mov_sym")
+                            if k in vocab.VOCAB[isa]])
+            lines.insert(1, {"k": k, "t": nm})
+            lines.append({"sec": sec})
+            if rng.random() < 0.3:
+                lines.append({"k": "bytes",
+                              "hex": rng.randbytes(rng.randrange(1, 4)).hex()})
+            lines.append({"l": nm})
+            lines.append({"k": "bytes",
+                          "hex": rng.randbytes(rng.randrange(1, 9)).hex()})
         for ln in lines:
             if ln.get("l") in temp:
                 ln["temp"] = True
